@@ -448,6 +448,9 @@ func TestVerif_C40(t *testing.T) {
 		c40run(r, rc)
 		return
 	}
+	if r.IsReplay() {
+		return // a case of another unit of this check (crashqueries)
+	}
 	ls := c40layouts(r)
 	if r.Thorough() {
 		ls = c40stride(ls)
